@@ -392,6 +392,31 @@ def gated_by(body, gate, target_bb):
     return True
 
 
+def gated_through(body, defs, all_gates, gate, target_bb, depth=2):
+    """gated_by, also through a relay value: `let r = match lookup() { Some(X{sig: Some(s), ..}) => Some(..), _ => None };
+    let Some(..) = r else { return Err(..) };` - the target is behind the Some edge of the switch on `r`, and every place where `r`
+    is given its good variant is itself behind the success edge of the gate.  `r` must be a plain local that is only ever assigned
+    whole variants and is never borrowed mutably."""
+    if gated_by(body, gate, target_bb):
+        return True
+    if depth <= 0:
+        return False
+    for r in all_gates:
+        if r is gate or r["family"] is None or len(r["place"]) != 1 or not gated_by(body, r, target_bb):
+            continue
+        l = r["place"][0]
+        ds = defs.whole_defs(l)
+        if not ds or any(d[2] != "assign" or d[3]["rv"]["k"] != "agg" or d[3]["rv"].get("vidx") is None for d in ds):
+            continue
+        if any(s["k"] == "assign" and s["rv"]["k"] == "ref" and s["rv"].get("mut") and s["rv"]["p"][0] == l
+               for b in body.blocks for s in b["stmts"]):
+            continue
+        goods = [d for d in ds if d[3]["rv"]["vidx"] == GOOD_DISCR[r["family"]]]
+        if goods and all(gated_through(body, defs, all_gates, gate, d[0], depth - 1) for d in goods):
+            return True
+    return False
+
+
 def find_gates_for_call(body, all_gates, call_bb):
     return [g for g in all_gates if any(c[0] == call_bb for c in g["chain"])]
 
